@@ -8,13 +8,13 @@ cp $WT/patch.diff $WT/demo.py $WT/meta.json $S/ 2>/dev/null
 F=$(mktemp -d /tmp/seedchk_XXXX); rmdir $F
 git -C /repo worktree add --detach -q $F HEAD || exit 3
 cp $S/demo.py $F/
-( cd $F && /venv/bin/python demo.py >/tmp/demo_clean.out 2>&1 ); RC_CLEAN=$?
+( cd $F && /venv/bin/python demo.py >/tmp/demo_clean_$ID.out 2>&1 ); RC_CLEAN=$?
 git -C $F apply $S/patch.diff || { echo "PATCH DOES NOT APPLY"; git -C /repo worktree remove --force $F; exit 3; }
-( cd $F && /venv/bin/python demo.py >/tmp/demo_mut.out 2>&1 ); RC_MUT=$?
+( cd $F && /venv/bin/python demo.py >/tmp/demo_mut_$ID.out 2>&1 ); RC_MUT=$?
 BASE=$(/verif/tools/baseline.sh $F 2>&1 | grep -v conda | tail -3)
 echo "demo clean rc=$RC_CLEAN  demo mutant rc=$RC_MUT"
 echo "baseline with patch: $BASE"
-tail -2 /tmp/demo_mut.out
+tail -2 /tmp/demo_mut_$ID.out
 OUT=$(cd /verif && VERIF_REPO=$F "$@" 2>&1 | grep -v conda)
 RC=$?
 echo "$OUT" | grep -E "violation|HELD|MACHINERY|VIOLATION" | cut -c1-300 | head -6
